@@ -477,6 +477,25 @@ func (c *Ctx) c12TOTPReplay() {
 		}
 		r.Check(okRej, "C12.totp-replay", vn, "last==input rejected", posf(c, tv), "a code equal to the last accepted one never reaches validation", "the previous code is not compared with the input before it is overwritten")
 	}
+	// every other place that records a last code (enrolment records the code
+	// that confirmed the setup) must save it, or that code is accepted again
+	for _, fn := range c.P.Funcs {
+		if fn == v || pkgOf(fn) != pkgOf(v) {
+			continue
+		}
+		except := map[string]string{}
+		has := false
+		for _, p := range c.userPuts(fn) {
+			if p.Method == "PutTOTPLastCode" {
+				has = true
+			} else {
+				except[p.Method] = "not a one-time secret (decided under C13)"
+			}
+		}
+		if has {
+			c.mustSaveAfterPut("C12.totp-replay-save", fn, except)
+		}
+	}
 	// PostValidate: for a UserOneTime, Save before the session write
 	pn := FuncName(pv)
 	uid := c.P.ConstString("", "SessionKey")
